@@ -166,8 +166,14 @@ def generate(tier, rng):
     kinds = ['random', 'random', 'zero', 'ff', 'ramp']
     for i in range(n):
         ln = rng.choice([1, 2, 5, 12, 30, 30, 80])
-        yield {'hasgfx': 1, 'mem': [lib.hx(r) for r in _mem(rng, rng.choice(kinds))],
-               'ops': [gen_op(rng) for _ in range(ln)]}
+        case = {'hasgfx': 1, 'mem': [lib.hx(r) for r in _mem(rng, rng.choice(kinds))],
+                'ops': [gen_op(rng) for _ in range(ln)]}
+        if i % 8 == 7:
+            # a cart assembled through the public constructors from caller buffers (shared where equal)
+            case['build'] = 'buffers'
+            if rng.random() < 0.7:
+                case['mem'][3] = case['mem'][2]
+        yield case
     for i in range(60 if tier == 'quick' else 600):
         ops = [gen_op(rng) for _ in range(rng.randrange(0, 4))] + [gen_bad_op(rng)]
         yield {'hasgfx': rng.choice([1, 1, 0]), 'mem': [lib.hx(r) for r in _mem(rng, 'ramp')], 'ops': ops, 'bad': True}
@@ -186,6 +192,7 @@ def generate(tier, rng):
 
 def corpus_cases():
     z = [lib.hx(bytes(n)) for n in SIZES]
+    yield {'hasgfx': 1, 'mem': z, 'build': 'buffers', 'ops': ['fs,3,255', 'mugc,0,3', 'musc,1,2,5', 'fg,6,255']}
     # minimised pre-fix defects (kept as regression corpus)
     yield {'hasgfx': 1, 'mem': z, 'ops': ['ss,15,0,0,0102030405060708090a']}            # column 128 wrapped
     yield {'hasgfx': 1, 'mem': z, 'ops': ['ss,240,0,8,01/02']}                          # row 128 IndexError
@@ -270,10 +277,13 @@ def apply_op(g, op):
 
 def run_impl(case):
     from pico8.game.game import Game
-    g = Game.make_empty_game()
-    secs = [g.gfx, g.map, g.gff, g.music, g.sfx]
-    for s, h in zip(secs, case['mem']):
-        s._data[:] = lib.unhx(h)
+    if case.get('build') == 'buffers':
+        g, secs, _ = lib.game_from_buffers(case['mem'])
+    else:
+        g = Game.make_empty_game()
+        secs = [g.gfx, g.map, g.gff, g.music, g.sfx]
+        for s, h in zip(secs, case['mem']):
+            s._data[:] = lib.unhx(h)
     if not case.get('hasgfx', 1):
         g.map._gfx = None
     outs = []
